@@ -148,12 +148,13 @@ NEW_INV = ["0 <= _i1", "_i1 <= len(terms_of(self))", "start == psum(new_widths(s
            "forall(0, _i1, lambda k: terms_of(self)[k].name in new_instance.slices and "
            "new_instance.slices[terms_of(self)[k].name].start == psum(new_widths(self, data), k) and "
            "new_instance.slices[terms_of(self)[k].name].stop == psum(new_widths(self, data), k + 1))",
-           # a factor is listed iff one of the terms seen so far changed its width
+           # a factor is listed iff one of the terms seen so far is wider than in the TRAINING design (the widths of the terms' own data -
+           # not the slices of this object, which may itself come from evaluate_new_data and already hold a new group: fix b7f6a2b)
            "forall(0, len(factors_with_new_levels), lambda q: exists(0, _i1, lambda k: "
            "factors_with_new_levels[q] == terms_of(self)[k].factor.name and "
-           "new_widths(self, data)[k] != self.slices[terms_of(self)[k].name].stop - self.slices[terms_of(self)[k].name].start))",
-           "forall(0, _i1, lambda k: implies(new_widths(self, data)[k] != self.slices[terms_of(self)[k].name].stop "
-           "- self.slices[terms_of(self)[k].name].start, terms_of(self)[k].factor.name in factors_with_new_levels))",
+           "new_widths(self, data)[k] != widths(self)[k]))",
+           "forall(0, _i1, lambda k: implies(new_widths(self, data)[k] != widths(self)[k], "
+           "terms_of(self)[k].factor.name in factors_with_new_levels))",
            "forall(0, len(factors_with_new_levels), lambda a: forall(0, len(factors_with_new_levels), lambda b: "
            "implies(a != b, factors_with_new_levels[a] != factors_with_new_levels[b])))"]
 REG.contract(M + "GroupEffectsMatrix.__init__", params={"terms": "list[ref:Term]"}, tags=["C17"],
@@ -174,7 +175,12 @@ REG.contract(M + "GroupEffectsMatrix.evaluate_new_data", params={"data": "any"},
                       SLICES.format(W="new_widths(self, data)").replace("self.slices", "result.slices"),
                       "result.design_matrix.shape[1] == psum(new_widths(self, data), len(terms_of(self)))",
                       # the training object is not touched
-                      "self.slices == old(self.slices)"],
+                      "self.slices == old(self.slices)",
+                      # C10: factors_with_new_levels names exactly the factors one of whose terms got wider than at training, each once
+                      "forall(0, len(result.factors_with_new_levels), lambda q: exists(0, len(terms_of(self)), lambda k: "
+                      "result.factors_with_new_levels[q] == terms_of(self)[k].factor.name and new_widths(self, data)[k] != widths(self)[k]))",
+                      "forall(0, len(terms_of(self)), lambda k: implies(new_widths(self, data)[k] != widths(self)[k], "
+                      "terms_of(self)[k].factor.name in result.factors_with_new_levels))"],
              loops={1: Loop(invariant=NEW_INV, havoc={"matrices_to_stack": "arrseq", "factors_with_new_levels": "list[str]"},
                             modifies=[])})
 REG.contract(M + "CommonEffectsMatrix.__init__", params={"terms": "list[ref:Term]"}, tags=["C17"],
